@@ -1246,7 +1246,7 @@ func (target *BuildTarget) HasLabel(label string) bool {
 			return true
 		}
 	}
-	return label == "test" && target.IsTest()
+	return target.IsTest() && match(label, "test")
 }
 
 // match returns true if the given label matches the given pattern.
